@@ -104,7 +104,7 @@ cdef class QueryHandler:
         is_probe=object,
         now=double
     )
-    cpdef QuestionAnswers async_response(self, cython.list msgs, cython.bint unicast_source)
+    cpdef QuestionAnswers async_response(self, cython.list msgs, cython.bint unicast_source, object answered_at=*)
 
     @cython.locals(name=str, question_lower_name=str)
     cdef list _get_answer_strategies(self, DNSQuestion question)
